@@ -70,7 +70,7 @@ PLAN = {
         "engines": lambda tier: [_e("release", "viewmc", "c13"), _e("dev", "viewmc", "c13")],
         "assumptions": [
             "sources over Vec / file / mmap / background decoder are built through the cfg-gated hook jubako::verif (ByteRegion constructors); the container route (content #2 of a raw/compressed cluster) needs no hook",
-            "payload lengths 0..5 (quick) / 0..6 (thorough) plus one 5000-byte payload per source; the decoder runs on the real rayon pool, its schedule is not controlled here (C07's subject)",
+            "payload lengths 0..5 (quick) / 0..7 (thorough) plus one 5000-byte payload per source; the decoder runs on the real rayon pool, its schedule is not controlled here (C07's subject)",
         ],
     },
     "C10": {
